@@ -359,6 +359,37 @@ func costMain(args []string) {
 			fams = append(fams, fam{"xss", p, u})
 		}
 	}
+	// structured units: construct opener + short body + closer, so that the scanner returns
+	// to its start state and meets the same construct again (a per-construct cost that
+	// grows with the REST of the input shows here and in no single-byte or pair family)
+	htmlOpen := []string{"<", "</", "<!", "<?", "<%", "<!-", "<!--", "<![", "<![CDATA[", "<!DOCTYPE", "<a", "<a ", "<a b", "<a b=", "<a b='", "<a b=\"", "<a/", "&#", "&#x"}
+	htmlBody := []string{"", "x", " ", "-", "\x00", "1"}
+	htmlClose := []string{">", "->", "-->", "]]>", "%>", "'>", "\">", ";", " >", "/>"}
+	for _, o := range htmlOpen {
+		for _, b := range htmlBody {
+			for _, c := range htmlClose {
+				fams = append(fams, fam{"xss", "", o + b + c})
+			}
+		}
+	}
+	sqlOpen := map[string][]string{
+		"'": {"'", "' ", "',"}, "\"": {"\"", "\" "}, "`": {"`", "` "}, "/*": {"*/", "*/ ", "*/1"}, "/*!": {"*/", "*/ "}, "--": {"\n", "\n1"}, "-- ": {"\n"}, "#": {"\n"},
+		"$$": {"$$", "$$ "}, "$t$": {"$t$", "$t$ "}, "q'(": {")'", ")' "}, "n'": {"'", "' "}, "x'": {"'", "' "}, "e'": {"'", "' "}, "u&'": {"'", "' "},
+		"@": {" ", ","}, "@@": {" "}, "@`": {"`", "` "}, "@'": {"'", "' "}, "[": {"]", "] "}, "{": {"}", "} "}, "(": {")", ") "}, "0x": {" ", ","}, "1e": {" ", ","}, "1.": {" ", ","},
+		"a.": {" ", ","}, "a`": {"`", " "}, "select ": {" ", ","}, "1 or ": {" ", ","},
+	}
+	var sqlOpeners []string
+	for o := range sqlOpen {
+		sqlOpeners = append(sqlOpeners, o)
+	}
+	sort.Strings(sqlOpeners)
+	for _, o := range sqlOpeners {
+		for _, b := range []string{"", "a", " ", "\\", "1", "\x00"} {
+			for _, c := range sqlOpen[o] {
+				fams = append(fams, fam{"sqli", "", o + b + c})
+			}
+		}
+	}
 	nPairs := 400
 	if *tier == "thorough" {
 		nPairs = 6000
